@@ -1556,6 +1556,14 @@ func (r *Raft) appendEntries(rpc RPC, a *AppendEntriesRequest) {
 					r.logger.Error("failed to clear log suffix", "error", err)
 					return
 				}
+				// The suffix is gone whether or not the new entries get
+				// stored below: the cached last log must not keep naming
+				// an entry that was deleted.
+				if i > 0 {
+					r.setLastLog(a.Entries[i-1].Index, a.Entries[i-1].Term)
+				} else {
+					r.setLastLog(a.PrevLogEntry, a.PrevLogTerm)
+				}
 				if entry.Index <= r.configurations.latestIndex {
 					r.setLatestConfiguration(r.configurations.committed, r.configurations.committedIndex)
 				}
@@ -1573,8 +1581,6 @@ func (r *Raft) appendEntries(rpc RPC, a *AppendEntriesRequest) {
 			// Append the new entries
 			if err := r.logs.StoreLogs(newEntries); err != nil {
 				r.logger.Error("failed to append to logs", "error", err)
-				// TODO: leaving r.getLastLog() in the wrong
-				// state if there was a truncation above
 				return
 			}
 
